@@ -1,5 +1,5 @@
 (* Executable model of rzmq's record layer for encrypted connections (CURVE, NOISE_XX):
-     core/src/security/framer/mod.rs   LengthPrefixedFramer (write_msg_batch / write_msg_multipart / try_read_msg)
+     core/src/security/framer/mod.rs   LengthPrefixedFramer (seal_records, write_msg_batch / write_msg_multipart / try_read_msg)
      core/src/security/curve/cipher.rs CurveDataCipher (per-direction counters, start 1, += 1 per record)
      core/src/security/noise_xx.rs     NoiseDataCipher (snow TransportState, 65535-byte message limit)
      core/src/security/curve/handshake.rs into_session_keys (which inputs the data keys depend on)
@@ -70,17 +70,39 @@ Definition decrypt (c : cipher) (ct : bytes) : dcres :=
   end.
 
 (* ---------- LengthPrefixedFramer, write side ---------- *)
-(* `out.put_u16(ciphertext.len() as u16); out.extend_from_slice(&ciphertext)`: the cast truncates *)
+(* `out.put_u16(ciphertext.len() as u16); out.extend_from_slice(&ciphertext)`: the cast truncates
+   (it cannot any more since seal_records keeps every ciphertext <= 65535 bytes; before that repair the
+   whole batch went into ONE record and the length of a CURVE record wrapped above 65535) *)
 Definition record_of (ct : bytes) : bytes := be_bytes 2 (len ct mod U16) ++ ct.
 
-Inductive sres := SOk (wire : bytes) | SErr | SPanic.
-(* write_msg_batch: frame_contiguous of the WHOLE batch, one encrypt call, one record *)
-Definition write_msg_batch (c : cipher) (batch : list (list frame)) : sres * cipher :=
-  match encrypt c (enc_contiguous batch) with
-  | EOk ct c' => (SOk (record_of ct), c')
-  | EErr => (SErr, c)
-  | EPanic => (SPanic, c)
+(* MAX_RECORD_PLAINTEXT = u16::MAX - 16; `plaintext.chunks(MAX_RECORD_PLAINTEXT)`: consecutive slices of
+   that many bytes, the last one shorter; NO slice for an empty plaintext *)
+Definition CHUNK : nat := N.to_nat NOISE_MAX_PT.
+Fixpoint chunk_fuel (fuel : nat) (p : bytes) : list bytes :=
+  match fuel with
+  | O => []
+  | S f => match p with [] => [] | _ => firstn CHUNK p :: chunk_fuel f (skipn CHUNK p) end
   end.
+Definition chunks (p : bytes) : list bytes := chunk_fuel (length p) p.
+
+Inductive sres := SOk (wire : bytes) | SErr | SPanic.
+(* seal_records: `for chunk in plaintext.chunks(..) { let ct = self.cipher.encrypt(chunk)?; out.put_u16(..); .. }`.
+   An error in the middle drops `out`, the counter keeps what the earlier chunks consumed. *)
+Fixpoint seal_chunks (c : cipher) (chs : list bytes) (out : bytes) : sres * cipher :=
+  match chs with
+  | [] => (SOk out, c)
+  | ch :: r =>
+      match encrypt c ch with
+      | EOk ct c' => seal_chunks c' r (out ++ record_of ct)
+      | EErr => (SErr, c)
+      | EPanic => (SPanic, c)
+      end
+  end.
+Definition seal_records (c : cipher) (pt : bytes) : sres * cipher := seal_chunks c (chunks pt) [].
+
+(* write_msg_batch: frame_contiguous of the WHOLE batch, then seal_records *)
+Definition write_msg_batch (c : cipher) (batch : list (list frame)) : sres * cipher :=
+  seal_records c (enc_contiguous batch).
 (* write_msg_multipart(msgs) = the same code on `&[msgs]`; frame_vectored/write_msg_split default to it *)
 Definition write_msg_multipart (c : cipher) (msgs : list frame) : sres * cipher := write_msg_batch c [msgs].
 
@@ -98,13 +120,15 @@ Fixpoint send_all (c : cipher) (bs : list (list (list frame))) : list sres * cip
 Definition wire_of (s : sres) : bytes := match s with SOk w => w | _ => [] end.
 Definition wires (ss : list sres) : bytes := concat (map wire_of ss).
 
-(* the records an honest sender with key k emits from counter n on, when every call succeeds *)
-Definition rec_wire (k : key) (n : N) (b : list (list frame)) : bytes := record_of (seal k n (enc_contiguous b)).
-Fixpoint rec_wires (k : key) (n : N) (bs : list (list (list frame))) : list bytes :=
-  match bs with [] => [] | b :: r => rec_wire k n b :: rec_wires k (n + 1) r end.
+(* the records an honest sender with key k emits for a list of plaintext chunks from counter n on *)
+Fixpoint chunk_wires (k : key) (n : N) (chs : list bytes) : list bytes :=
+  match chs with [] => [] | ch :: r => record_of (seal k n ch) :: chunk_wires k (n + 1) r end.
 (* the (nonce, plaintext) pairs it sealed *)
-Fixpoint sealed (n : N) (bs : list (list (list frame))) : list (N * bytes) :=
-  match bs with [] => [] | b :: r => (n, enc_contiguous b) :: sealed (n + 1) r end.
+Fixpoint sealed (n : N) (chs : list bytes) : list (N * bytes) :=
+  match chs with [] => [] | ch :: r => (n, ch) :: sealed (n + 1) r end.
+(* the chunks of a sequence of write calls *)
+Definition all_chunks (bs : list (list (list frame))) : list bytes :=
+  concat (map (fun b => chunks (enc_contiguous b)) bs).
 
 (* ---------- LengthPrefixedFramer, read side ---------- *)
 Inductive rout := RFrame (f : frame) | RErr | RPanic.
@@ -112,26 +136,17 @@ Inductive rout := RFrame (f : frame) | RErr | RPanic.
 Record rstate := { r_c : cipher; r_dbuf : bytes; r_closed : bool }.
 Definition r_init (c : cipher) : rstate := {| r_c := c; r_dbuf := []; r_closed := false |}.
 
-(* `self.parser.decode_from_buffer(&mut self.decrypted_buffer)` repeated until it returns Ok(None)/Err *)
-Fixpoint drain (fuel : nat) (maxsz : Z) (d : bytes) : list rout * bytes * bool :=
-  match fuel with
-  | O => ([], d, false)
-  | S f =>
-      match dec_buffer maxsz d with
-      | DFrame fr n => let '(o, d', cl) := drain f maxsz (skipn n d) in (RFrame fr :: o, d', cl)
-      | DErr => ([RErr], d, true)
-      | DNeed | DPanic => ([], d, false)
-      end
-  end.
+Definition conv (o : option frame) : rout := match o with Some f => RFrame f | None => RErr end.
 
 (* one length-prefixed record taken from the network buffer: decrypt, append the plaintext to
-   decrypted_buffer, then the loop of try_read_msg calls hands out the frames it now contains *)
+   decrypted_buffer, then the loop of try_read_msg calls hands out the frames it now contains:
+   `self.parser.decode_from_buffer(&mut self.decrypted_buffer)` repeated until Ok(None) / Err, which is
+   Codec.buffer_step pumped over the decrypted buffer (a frame may span records) *)
 Definition on_record (maxsz : Z) (st : rstate) (rec : bytes) : rstate * list rout :=
   match decrypt (r_c st) rec with
   | DcOk pt c' =>
-      let d := r_dbuf st ++ pt in
-      let '(o, d', cl) := drain (S (length d)) maxsz d in
-      ({| r_c := c'; r_dbuf := d'; r_closed := cl |}, o)
+      let '(failed, d', o) := pump (buffer_step maxsz) buffer_mu 1%nat false (r_dbuf st ++ pt) in
+      ({| r_c := c'; r_dbuf := d'; r_closed := failed |}, map conv o)
   | DcErr => ({| r_c := r_c st; r_dbuf := r_dbuf st; r_closed := true |}, [RErr])
   | DcPanic => ({| r_c := r_c st; r_dbuf := r_dbuf st; r_closed := true |}, [RPanic])
   end.
